@@ -213,6 +213,13 @@ func (e *e1Engine) helperValue(call *ssa.Call) ssa.Value {
 		}
 	}
 	if e == nil || curLits == nil {
+		// outside a row evaluation there is no valuation to narrow the result with: a single return of
+		// a merged variable is still rendered as that variable
+		if len(rets) == 1 {
+			if ph, isPhi := rets[0].Results[0].(*ssa.Phi); isPhi && ph.Comment != "" {
+				return ph
+			}
+		}
 		return nil
 	}
 	// several returns (or a merged one): the feasible ones under the row's valuation
